@@ -150,6 +150,15 @@ def make_spec(tname, sens_subs, access_mode, cost, value_kind, disc, fw_kind, bi
     if access_mode == "root_exploit":
         spec["exploits"] = {"e0": {"service": "s0", "os": None, "prob": 1.0, "cost": cost, "access": ROOT}}
         spec["privescs"] = {}
+    elif access_mode == "user_and_root_exploits":
+        # two exploits for the same (service, OS) pair with different access levels (both in the flat space)
+        spec["exploits"] = {"e_user": {"service": "s0", "os": None, "prob": 1.0, "cost": cost, "access": USER},
+                            "e_root": {"service": "s0", "os": None, "prob": 1.0, "cost": cost + 1, "access": ROOT}}
+        spec["privescs"] = {"pe0": {"process": "p0", "os": None, "prob": 1.0, "cost": cost + 2, "access": ROOT}}
+    elif access_mode == "dearer_exploit_listed_first":
+        spec["exploits"] = {"e_dear": {"service": "s0", "os": None, "prob": 1.0, "cost": 3 * cost, "access": ROOT},
+                            "e_cheap": {"service": "s0", "os": None, "prob": 1.0, "cost": cost, "access": ROOT}}
+        spec["privescs"] = {}
     else:
         spec["exploits"] = {"e0": {"service": "s0", "os": None, "prob": 1.0, "cost": cost, "access": USER}}
         spec["privescs"] = {"pe0": {"process": "p0", "os": None, "prob": 1.0, "cost": cost, "access": ROOT}}
@@ -192,7 +201,7 @@ def family(tier):
         if tier == "quick":
             placements = [p for p in placements if len(p) >= 2 or tname in ("chain3", "two_public")][:6]
         for sens in placements:
-            for access_mode in ("root_exploit", "user_then_escalate"):
+            for access_mode in ("root_exploit", "user_then_escalate", "user_and_root_exploits", "dearer_exploit_listed_first"):
                 for cost in (1, 2):
                     for value_kind in ("zero", "one", "mixed"):
                         for disc in (0, 1):
@@ -215,11 +224,14 @@ def optimum(graph, root, goal_keys):
     memo = {}
     on_stack = set()
 
+    class _Cycle(Exception):
+        pass
+
     def best(k):
         if k in memo:
             return memo[k]
         if k in on_stack:
-            raise HarnessError("state graph of state-changing transitions has a cycle (C04 matter)")
+            raise _Cycle()
         on_stack.add(k)
         b = None
         for a_idx, side, k2, r, done, succ in graph.get(k, ()):
@@ -238,7 +250,28 @@ def optimum(graph, root, goal_keys):
         memo[k] = b
         return b
 
-    return best(root)
+    try:
+        return best(root)
+    except _Cycle:
+        # the graph of state-changing transitions is cyclic (status is not monotone - a C04 matter): the best
+        # goal-reaching episode of at most 4|S| steps by value iteration (a profitable cycle grows without bound)
+        nodes = list(graph.keys())
+        V = {k: None for k in nodes}
+        for _ in range(min(400, 4 * len(nodes) + 8)):
+            newV = {}
+            for k in nodes:
+                b = None
+                for a_idx, side, k2, r, done, succ in graph.get(k, ()):
+                    if k2 == k:
+                        continue
+                    cand = r if k2 in goal_keys else (None if V.get(k2) is None else r + V[k2])
+                    if cand is not None and (b is None or cand > b):
+                        b = cand
+                newV[k] = b
+            if newV == V:
+                break
+            V = newV
+        return V.get(root)
 
 
 def _scen_job(choice):
